@@ -57,7 +57,9 @@ RULE = ('signals: tones/chirp/noise/walk/intermittent/dyadic/offset families, n 
         'scalar and array amplitudes, cap 1..6, nphases 1..8 (15% forced to 1), 30% of the explicit lists contain a zero frequency '
         '(constant mask, as in the docstring example); every case is run with nprocesses = 1 and further values in 2..8 '
         '(all of 1..8 in the thorough tier), one call after the other WITH THE SAME ARGUMENT OBJECTS (signal, amplitude array, '
-        'frequency list), and compared bitwise; a later call that differs is judged by the documented rule as well. Malformed stream: nphases 0, short amplitude array, short '
+        'frequency list), and compared bitwise; a later call that differs is judged by the documented rule as well. 30% of the mask_sift signals are handed '
+        'over as STORED by recording systems - int16 / int64 sample counts (whole numbers, scale 60..2000) or float32 (absolute amplitude mode: '
+        'np.std of a float32 array is single precision) - and judged against the float64 rule on the stored values, tolerance relative to the signal scale. Malformed stream: nphases 0, short amplitude array, short '
         'frequency list, first frequency outside (0, 0.5). Non-trivial: nphases >= 2 and non-zero amplitude and >= 2 process counts.')
 
 SIZES_Q = [16, 32, 48, 64, 100, 128, 256]
@@ -72,6 +74,28 @@ def _nprocs(rng, tier):
 
 def _tol(x, extra=0.0):
     return _msk.TOL * max(1.0, _msk.max_abs(x) + extra)
+
+
+STORES = ('int16', 'int64', 'float32')
+
+
+def _stored(case):
+    """(values, stored): the signal of the case as float64 VALUES (what the documented rule, the model and every oracle
+    compute on) and as the array object handed to the library. case['store'] in STORES: the same values kept the way
+    recordings are kept on disk - integer sample counts (int16 / int64: the family signal rounded to whole numbers) or
+    single-precision floats (the float32-representable values ARE the data). A signal stored in another numeric type is
+    still a signal of the quantifier: the masked IMFs are judged against the float64 rule on its values."""
+    base = _msk.make_signal(case['sig'])
+    st = case.get('store')
+    if st is None:
+        return base, base
+    if st == 'float32':
+        xs = np.ascontiguousarray(base, dtype=np.float32)
+    elif st in ('int16', 'int64'):
+        xs = np.ascontiguousarray(np.round(np.clip(base, -32000, 32000)), dtype=st)
+    else:
+        raise ValueError(st)
+    return np.ascontiguousarray(xs, dtype=float), xs
 
 
 def _is_timeout(out):
@@ -309,6 +333,17 @@ class MaskSift(_Cached):
             dict(base, freqs=[0.0, 0.2], amp=[0.5, 1.0], mode='ratio_sig', nphases=1, cap=2, nprocs=[1, 2]),
             dict(base, freqs=[0.4, 0.2, 0.0], amp=1.0, mode='ratio_imf', nphases=1, cap=3, nprocs=[1, 2]),
             dict(base, freqs=[0.4, 0.0, 0.0], amp=2.0, mode='abs', nphases=3, cap=3, nprocs=[1, 4]),
+            # round-5 change C07/2 (IMF buffer pre-allocated with the dtype of the input: the masked IMFs of an integer-stored
+            # signal are truncated to whole numbers, those of a float32-stored signal rounded to single precision)
+            dict(base, sig={'fam': 'tones', 'n': 128, 'seed': 11, 'scale': 60.0}, store='int16', cap=3, nprocs=[1, 2]),
+            dict(base, sig={'fam': 'chirp', 'n': 100, 'seed': 5, 'scale': 2000.0}, store='int64', freqs=0.4, step=3, mode='ratio_sig',
+                 amp=0.7, cap=3, nphases=3, nprocs=[1, 2]),
+            dict(base, sig={'fam': 'walk', 'n': 64, 'seed': 9, 'scale': 250.0}, store='int16', freqs=[0.3, 0.12, 0.05], mode='abs',
+                 amp=[100.0, 60.0, 30.0], cap=3, nphases=2, nprocs=[1, 2]),
+            dict(base, sig={'fam': 'tones', 'n': 64, 'seed': 4, 'scale': 1.0}, store='float32', freqs=0.35, mode='abs', amp=0.8,
+                 cap=3, nprocs=[1, 2]),
+            dict(base, sig={'fam': 'noise', 'n': 100, 'seed': 6, 'scale': 250.0}, store='float32', freqs='zc', mode='abs', amp=200.0,
+                 cap=4, nphases=3, nprocs=[1, 2]),
             dict(base, amp=[1.0], freqs=0.3, cap=4, malformed=True),            # amplitude array too short
             dict(base, freqs=0.0, malformed=True),
             dict(base, freqs=-0.1, malformed=True),
@@ -322,6 +357,14 @@ class MaskSift(_Cached):
         sizes = SIZES_T if tier == 'thorough' else [32, 64, 100, 128, 256]
         for _ in range(n_cases):
             sig = _msk.rand_signal_spec(rng, sizes)
+            store = None
+            if rng.random() < 0.3:
+                # the signal as recordings are stored: integer sample counts of amplitude ~50..2000, or single precision
+                store = rng.choice(STORES)
+                if store != 'float32':
+                    sig['scale'] = rng.choice([60.0, 250.0, 1000.0] if store == 'int16' else [60.0, 250.0, 2000.0])
+                    if sig['fam'] == 'dyadic':
+                        sig['fam'] = 'tones'
             cap = rng.randint(1, 6)
             r = rng.random()
             if r < 0.25:
@@ -335,6 +378,11 @@ class MaskSift(_Cached):
                 if rng.random() < 0.3:          # the docstring's example list ends in 0: a constant mask
                     freqs[rng.randrange(len(freqs))] = 0.0
             mode = rng.choice(['abs', 'ratio_sig', 'ratio_imf', 'ratio_imf'])
+            if store == 'float32':
+                # np.std of a float32 array is evaluated in single precision, so in the ratio modes the library's mask
+                # amplitude (and with it the IMFs, ~1e-8 relative) agrees with the float64 rule to single precision only:
+                # single-precision storage is judged in the absolute mode, where the agreement is at float64 rounding
+                mode = 'abs'
             unit = sig['scale'] if mode == 'abs' else 1.0
             if rng.random() < 0.4:
                 amp = [rng.choice([0.0, 0.25, 0.5, 1.0, 2.0]) * unit if rng.random() < 0.3 else rng.uniform(0.1, 2.5) * unit
@@ -350,6 +398,8 @@ class MaskSift(_Cached):
                 case.update(amp=[1.0] * max(0, cap - 2), malformed=True)
             elif r < 0.05:
                 case.update(freqs=rng.choice([0.0, -0.2, 0.5, 0.75]), malformed=True)
+            if store is not None:
+                case['store'] = store
             yield case
 
     # -- helpers
@@ -371,7 +421,7 @@ class MaskSift(_Cached):
 
     def impl(self, case):
         import emd
-        x = _msk.make_signal(case['sig'])
+        x, xs = _stored(case)       # float64 values (oracles) / the array as stored (handed to mask_sift)
         z = None
         if case['freqs'] in ('zc', 'if'):
             z = float(emd.sift.get_mask_freqs(x[:, None], case['freqs'], imf_opts=dict(_msk.IMF_OPTS[case['opts']])))
@@ -383,7 +433,7 @@ class MaskSift(_Cached):
                 _msk.jitter()
         with _msk.wrapped_public(emd.sift, 'get_next_imf', before), _msk.time_limit(120):
             for npr in case['nprocs']:
-                imf, mf = self._call(case, x, npr, amp, freqs)
+                imf, mf = self._call(case, xs, npr, amp, freqs)
                 imf = np.asarray(imf)
                 mf = np.asarray(mf, dtype=float)
                 if ref is None:
@@ -409,14 +459,14 @@ class MaskSift(_Cached):
             z = None if isinstance(out, ImplError) else out.get('z')
             if z is None:
                 import emd
-                x = _msk.make_signal(case['sig'])
+                x = _stored(case)[0]
                 z = float(emd.sift.get_mask_freqs(x[:, None], f, imf_opts=dict(_msk.IMF_OPTS[case['opts']])))
             return 'oracle', z, _msk.ladder(z, case['step'], case['cap']), case['cap']
         return 'float', float(f), _msk.ladder(float(f), case['step'], case['cap']), case['cap']
 
     def _spec(self, case, out):
         def run():
-            x = _msk.make_signal(case['sig'])
+            x = _stored(case)[0]
             src, z, freqs, cap = self._resolved(case, out)
             if case['nphases'] == 0 or (src == 'float' and not (0 < z < 0.5)) or (z is not None and not np.isfinite(z)):
                 return x, src, z, freqs, cap, None
@@ -568,7 +618,8 @@ class MaskSift(_Cached):
         f = case['freqs']
         t = ['src=' + ('list' if isinstance(f, list) else f if isinstance(f, str) else 'float'), 'mode=' + case['mode'],
              'amp=' + ('array' if isinstance(case['amp'], list) else 'scalar'), 'nphases=%d' % case['nphases'],
-             'cap=%d' % case['cap'], 'step=%s' % case['step'], 'opts=%d' % case['opts'], 'nprocs=%d' % len(case['nprocs'])]
+             'cap=%d' % case['cap'], 'step=%s' % case['step'], 'opts=%d' % case['opts'], 'nprocs=%d' % len(case['nprocs']),
+             'stored=' + case.get('store', 'float64')]
         if isinstance(f, list) and 0.0 in f:
             t.append('list-with-zero-frequency')
         if isinstance(out, ImplError):
